@@ -8,7 +8,7 @@ TECH="contract-based deductive verification: VC generation over go/ssa of the re
 hooks=subprocess.run("git -C /repo log --format=%h --grep='^verif:'",shell=True,capture_output=True,text=True).stdout.split()
 m={"version":1,
  "setup_cmd":"cd /verif/engine && GOFLAGS=-mod=mod GOPROXY=off GOSUMDB=off GOTOOLCHAIN=local go build -o /verif/bin/govc ./cmd/govc",
- "hooks":{"guard":"verif","enable":"contracts are comment-only files pkg/*/zz_contracts_verif*.go behind //go:build verif; govc loads /repo with -tags verif","baseline_off_cmd":"cd /repo && go test -vet=off -count=1 ./pkg/... ./test/...","source_commits":list(reversed(hooks)),"add_only":True},
+ "hooks":{"guard":"verif","enable":"contracts are comment-only files pkg/*/zz_contracts_verif*.go behind //go:build verif; govc loads /repo with -tags verif; one test file (pkg/document/template_image_placeholder_order_test.go: regression tests of three fixes, added by commit f0015af) is behind the same tag, so the pinned suite is unchanged with the tag off","baseline_off_cmd":"cd /repo && go test -vet=off -count=1 ./pkg/... ./test/...","source_commits":list(reversed(hooks)),"add_only":True},
  "engines":[{"name":"govc","path":"/verif/engine","serves_properties":sorted(claims['claimed']),"kind_free_text":"VC generator over go/ssa (x/tools v0.29.0), SMT-LIB obligations discharged by z3/z3-new/cvc5"}],
  "checks":[],"notes":claims.get('notes',''),"not_applicable":[]}
 for pid in sorted(claims['claimed']):
